@@ -5,6 +5,7 @@ DIR="$(cd "$(dirname "${BASH_SOURCE[0]}")" && pwd)"
 cd "$DIR/engine/mirdump"
 CARGO_NET_OFFLINE=true cargo +nightly build --release --offline
 test -x target/release/mirdump
+mkdir -p "$DIR/engine/gen"      # generated files live here (not under version control)
 python3 "$DIR/tools/gen_std_panics.py"
 # positive controls: facts of the fixture crate (violates every rule whose expected count on the real tree is zero)
 PYTHONPATH="$DIR/engine" python3 -c "
